@@ -271,9 +271,9 @@ func VerifC09_settingsStep() {
 	vfReach("end")
 }
 
-// processSettingsNoWrite with a SETTINGS frame that carries SEVERAL settings (2, thorough 3), each one
-// INITIAL_WINDOW_SIZE, MAX_FRAME_SIZE or MAX_CONCURRENT_STREAMS (vfChoice) with an arbitrary 32-bit value, so the
-// same setting may occur more than once. RFC 9113 §6.5.3: "The values in the SETTINGS frame MUST be processed in the
+// processSettingsNoWrite with a SETTINGS frame that carries SEVERAL settings: 2, each one INITIAL_WINDOW_SIZE,
+// MAX_FRAME_SIZE or MAX_CONCURRENT_STREAMS (vfChoice) (thorough also 3, each INITIAL_WINDOW_SIZE or MAX_FRAME_SIZE),
+// with arbitrary 32-bit values, so the same setting may occur more than once. RFC 9113 §6.5.3: "The values in the SETTINGS frame MUST be processed in the
 // order they appear": the reference folds the entries in order, exactly as the server does for its own view of the
 // stream windows (each INITIAL_WINDOW_SIZE moves every open stream window by value - previous value, where the
 // previous value is the one set by the preceding entry). Processing stops at the first invalid entry (connection
@@ -294,10 +294,11 @@ func VerifC09_settingsFrame() {
 	seen0 := vfChoice("seenSettings", 2) == 1 // first SETTINGS frame of the connection or a later one
 	cc.seenSettings = seen0
 	ne := 2
-	if vfTier() > 0 {
-		ne = 3
-	}
 	ids := []SettingID{SettingInitialWindowSize, SettingMaxFrameSize, SettingMaxConcurrentStreams}
+	if vfTier() > 0 && vfChoice("three-entries", 2) == 1 {
+		// thorough: also three entries, each INITIAL_WINDOW_SIZE or MAX_FRAME_SIZE (the two settings of this property)
+		ne, ids = 3, ids[:2]
+	}
 	var ss []Setting
 	niws, nmcs := 0, 0
 	for i := 0; i < ne; i++ {
